@@ -73,6 +73,28 @@ SCRIPTS_Q = {
 }
 
 
+# Constant numbers for multi-range instances: (len, a0, b0, a1, b1, a2, b2).
+NUMS = {
+    "req": [1000, 0, 10, 20, 30, 40, 50],        # ranges + 80 each under half the entity: must be multipart
+    "rev": [100000, 500, 600, 0, 10, 700, 800],   # out of order and far apart: multipart, request order kept
+    "forb": [100, 0, 60, 50, 100, 0, 1],          # ranges alone reach the entity length: never multipart
+    "mid": [300, 0, 20, 30, 50, 60, 61],          # in between: either answer is allowed
+}
+
+
+def num_variants(c, tier):
+    """quick: constant numbers (the multipart-or-complete decision is a constant branch, ~100 s and
+    ~5 GB per instance); thorough adds the all-symbolic instance (both answers in one formula:
+    ~500 s, ~20 GB)."""
+    pick = ["req", "forb"] if c["nhdr"] != 1 else ["rev", "mid"]
+    if c["ir"] != "absent":
+        pick = ["req"]
+    out = [("_" + k, [255] * 6, NUMS[k]) for k in pick]
+    if tier != "quick" and c["nhdr"] == 1 and c["ir"] == "absent":
+        out.append(("", [255] * 6, None))
+    return out
+
+
 def scripts_for(base, c, tier):
     """[(suffix, kinds)] for a multipart body instance."""
     if tier == "quick":
@@ -94,18 +116,21 @@ def generate(tier, out_rs, out_meta):
     meta = {}
     for base, c0 in cfgs:
         # GET responses with an entity body are split into a headers instance and a body instance
-        split = c0["method"] == "GET" and c0["group"] in ("full", "single", "multi")
+        # (multi-range GET: the body is the MultipartStream state machine, verified poll by poll in
+        # mp_step; the instance here checks the headers and the initial state serve() hands over.
+        # An If-Range that does not match turns a multi-range request into a complete 200: body.)
+        split = c0["method"] == "GET" and (c0["group"] in ("full", "single") or (c0["group"] == "multi" and c0["ir"] == "other"))
         for focus, suffix in ([(1, "_hd"), (2, "_bd")] if split else [(0, "")]):
-            variants = [("", [255] * 6)]
-            if focus == 2 and c0["group"] == "multi":
-                variants = scripts_for(base, c0, tier)
-            for vs, kinds in variants:
+            variants = [("", [255] * 6, None)]
+            # (constant numbers for multi-range instances -- num_variants() -- were tried and did not
+            # make them cheaper: the cost is not in the multipart-or-complete decision)
+            for vs, kinds, nums in variants:
                 name = base + suffix + vs
-                c = dict(c0, focus=focus, script=kinds)
+                c = dict(c0, focus=focus, script=kinds, nums=nums)
                 meta[name] = c
                 L.append(
-                    ("serve_harness" if c["nranges"] >= 2 else "serve_harness_nomulti") + "!(%s, Cfg { method: %d, etag: %d, has_mtime: %s, nhdr: %d, ir: %d, parse: %d, nranges: %d, focus: %d, script: [%s] });"
-                    % (name, M[c["method"]], ETAG[c["etag"]], "true" if c["has_mtime"] else "false", c["nhdr"], IR[c["ir"]], PR[c["parse"]], c["nranges"], focus, ", ".join(str(k) for k in kinds))
+                    ("serve_harness" if c["nranges"] >= 2 else "serve_harness_nomulti") + "!(%s, Cfg { method: %d, etag: %d, has_mtime: %s, nhdr: %d, ir: %d, parse: %d, nranges: %d, focus: %d, script: [%s], nums: %s });"
+                    % (name, M[c["method"]], ETAG[c["etag"]], "true" if c["has_mtime"] else "false", c["nhdr"], IR[c["ir"]], PR[c["parse"]], c["nranges"], focus, ", ".join(str(k) for k in kinds), "None" if nums is None else "Some([%s])" % ", ".join(str(v) for v in nums))
                 )
     open(out_rs, "w").write("\n".join(L) + "\n")
     json.dump(meta, open(out_meta, "w"))
